@@ -30,6 +30,8 @@ Definition image (r : rel) (x : tag) : list tag :=
 Definition product (xs ys : list tag) : rel :=
   flat_map (fun x => map (fun y => (x, y)) ys) xs.
 Definition radd (t p : tag) (r : rel) : rel := if rmem t p r then r else (t, p) :: r.
+(** set union: the pairs of l that r lacks are added *)
+Definition runion (r l : rel) : rel := fold_left (fun acc q => radd (fst q) (snd q) acc) l r.
 
 Definition is_ident (t : tag) : bool := match t with K _ => true | _ => false end.
 Definition is_class (t : tag) : bool := match t with C _ => true | _ => false end.
